@@ -515,6 +515,22 @@ func (c02Engine) Run(sci interface{}, ctx *RunCtx) *Finding {
 			// journals: the optimised run's journal is the unoptimised one's minus
 			// calls of marked pure functions that happened at compile time instead
 			if d := c02JournalDiff(w.Journal, wOff.Journal, p.world.Journal, marked, p.label == plain.label, o.Failed()); d != "" {
+				if o.Failed() && oOff.Failed() && sc.Tree != nil && mayPrebuild(sc.Tree) && len(w.Journal) > len(wOff.Journal) {
+					// Both runs fail and the optimised one got further. The optimiser builds
+					// constant collections at compile time, so its program creates fewer
+					// elements at run time and exhausts the budget later. Decided by
+					// experiment, not from the error text: under a larger budget the
+					// unoptimised run goes on, and makes exactly the calls the optimised one made.
+					saved := vm.MemoryBudget
+					vm.MemoryBudget = saved * 8
+					o2, w2 := run(off)
+					vm.MemoryBudget = saved
+					_ = o2
+					if len(w2.Journal) > len(wOff.Journal) && c02JournalPrefix(w.Journal, w2.Journal, p.world.Journal, marked, p.label == plain.label) {
+						ctx.Count("budget_reached_later_by_optimised_program", 1)
+						continue
+					}
+				}
 				return &Finding{Class: "C02/call-history-differs", Detail: fmt.Sprintf("run %d: %s\n %s journal:  %v\n unoptimized journal: %v\n compile-phase calls: %v\n%s", k, d, p.label, journalStrings(w.Journal), journalStrings(wOff.Journal), journalStrings(p.world.Journal), head())}
 			}
 		}
@@ -549,6 +565,30 @@ func c02JournalDiff(opt, unopt, compilePhase []CallRec, marked map[string]bool, 
 		return fmt.Sprintf("the optimised run made a call the unoptimised run did not: %s", opt[i].String())
 	}
 	return ""
+}
+
+// c02JournalPrefix: every call of opt appears, in order, in unopt, and the entries
+// of unopt skipped before the last of them are calls moved to compile time.
+func c02JournalPrefix(opt, unopt, compilePhase []CallRec, marked map[string]bool, noMarks bool) bool {
+	moved := map[string]bool{}
+	for _, c := range compilePhase {
+		moved[c.Name+"("+c.Args+")"] = true
+	}
+	i := 0
+	for _, u := range unopt {
+		if i == len(opt) {
+			break
+		}
+		if opt[i].Name == u.Name && opt[i].Args == u.Args {
+			i++
+			continue
+		}
+		if !noMarks && marked[u.Name] && moved[u.Name+"("+u.Args+")"] {
+			continue
+		}
+		return false
+	}
+	return i == len(opt)
 }
 
 func (c02Engine) Shrinks(sci interface{}) []interface{} {
